@@ -471,7 +471,7 @@ func scenarioMain(args []string) {
 		listen := func(svc string) (*netceptor.Listener, chan error) {
 			li, err := b.Listen(svc, st)
 			Must(err)
-			errs := make(chan error, 16)
+			errs := make(chan error, 256)
 			go func() {
 				for {
 					c, err := li.Accept()
@@ -481,7 +481,12 @@ func scenarioMain(args []string) {
 					if err == nil {
 						_ = c.(*netceptor.Conn).CloseConnection()
 					}
-					errs <- err
+					// never block: an accepter that stops accepting would leave accepted connections waiting
+					// in the listener, which is the application's doing and not a leak of the node
+					select {
+					case errs <- err:
+					default:
+					}
 				}
 			}()
 			return li, errs
